@@ -25,6 +25,9 @@ CHECKS = {
     "C54": dict(level="proof", technique=PROOF_TECH, design="DESIGN.md §5 C54",
                 text="every OrderedSet method and operator, unique_list and IdentitySet (IdentitySet operand) is proved from the pure-Python source against 'set semantics with first-insertion order' (views via the spec functions addall/filt), representation invariants and frames included; the two known defects are reported as KNOWN-FINDING with every input outside their class proved. Bounded complement: pure and compiled builds against reference models.",
                 note="argument kinds are a case split (list with duplicates / set / IdentitySet); inductive lemmas filt_cong, addall_cat, filt_snoc assumed (Lean status in lemmas/); immutabledict/LRUCache/merge_lists_w_ordering are bounded only; the .so cannot be rebuilt here"),
+    "C10": dict(level="proof", technique=PROOF_TECH, design="DESIGN.md §5 C10",
+                text="BufferedRowCursorFetchStrategy._buffer_rows / fetchone / fetchmany / fetchall are proved against the view total = buffer ++ rows left in the cursor: each call returns a prefix of total and leaves exactly the rest, _buffer_rows never loses a row and is only called on an empty buffer, fetchmany(0) is never sent to the driver. Bounded complement: all Result API operation sequences against a list model.",
+                note="assumed PEP-249 cursor contract; handle_exception NoReturn; _soft_close clears the buffer; the Result API classes are bounded only"),
     "C21": dict(level="proof", technique=PROOF_TECH, design="DESIGN.md §5 C21",
                 text="SQLCompiler._truncated_identifier (length <= label_length, memo idempotent, earlier names keep their rendering, counters only grow), IdentifierPreparer._truncate_and_render_maxlen_name (length <= max_) and truncate_and_render_index/constraint_name (the kind-specific limit applies when the dialect defines it) are proved for all lengths with strings modelled by length. Bounded complement: naming conventions x dialect families x limits.",
                 note="strings by length only; md5/apply_map pure; preconditions label_length >= 6, max_ >= 8; uniqueness within a statement bounded only"),
@@ -87,7 +90,7 @@ CHECKS.update({
              "execution on real schemas outside", "DESIGN.md §5 C16"),
     "C22": B("exceptional postcondition of compile(): raises subset-of {CompileError, UnsupportedCompilationError, InvalidRequestError, ArgumentError}, over the statement corpus (depth 2) + ~3.3k compositions x 9 dialect variants x {plain, literal_binds, render_postcompile}. Bounded exploration of a finite catalogue.",
              "'well-formed' = accepted by the constructors in the corpus generator", "DESIGN.md §5 C22"),
-    "C10": B("list-model ghost for Result/ScalarResult/MappingResult/FrozenResult/MergedResult/ChunkedIteratorResult: every public method's result compared with the model over all operation sequences <= 3 (quick) / 4 (thorough) of 32 operations x 7 row sets x 6 sources (IteratorResult, sqlite CursorResult default / stream_results+max_row_buffer / yield_per, chunked). Bounded exploration; the buffered fetch strategies' proof kernel is planned (DESIGN §5 C10).",
+    "_C10_bounded_only": B("list-model ghost for Result/ScalarResult/MappingResult/FrozenResult/MergedResult/ChunkedIteratorResult: every public method's result compared with the model over all operation sequences <= 3 (quick) / 4 (thorough) of 32 operations x 7 row sets x 6 sources (IteratorResult, sqlite CursorResult default / stream_results+max_row_buffer / yield_per, chunked). Bounded exploration; the buffered fetch strategies' proof kernel is planned (DESIGN §5 C10).",
              "assumed DBAPI cursor contract; cursor.fetchmany(0) is driver-defined and excluded", "DESIGN.md §5 C10"),
     "_C21_bounded_only": B("run-time contract on _truncated_identifier / _truncate_and_render_maxlen_name / truncate_and_render_index+constraint_name: rendered length <= the dialect's limit for that kind of name, deterministic across compilations, unique within a statement; 7 dialect families x max_identifier_length values x 11 naming templates x name lengths around each limit. Bounded exploration.",
              "md5 and %-templating are CPython's", "DESIGN.md §5 C21"),
